@@ -37,7 +37,7 @@ ContradictJoint == \E i \in 1..N : (\E j \in 1..N : t.rows[i].sp = t.rows[j].pid
 DropRequired == \E c \in Required \ t.dropped : t' = [t EXCEPT !.dropped = @ \cup {c}] /\ Log("DropRequired", <<c>>, TRUE)
 DuplicateColumn == \E c \in {"alter", "bruttolohn_m", "hh_id"} \ t.dup : c \notin t.dropped /\ t' = [t EXCEPT !.dup = @ \cup {c}] /\ Log("DuplicateColumn", <<c>>, TRUE)
 LossyDtype == \E c \in DCols : t.dtype[c] = "ok" /\ c \notin t.dropped /\
-                \E k \in (IF c = "alter" THEN {"int_frac", "object"} ELSE IF c = "kind" THEN {"bool_two", "bool_frac", "object"} ELSE {"object"}) :
+                \E k \in (IF c = "alter" THEN {"int_frac", "int_frac_small", "object"} ELSE IF c = "kind" THEN {"bool_two", "bool_frac", "object"} ELSE {"object"}) :
                    t' = [t EXCEPT !.dtype[c] = k] /\ Log("LossyDtype", <<c, k>>, TRUE)
 LosslessDtype == \E c \in DCols : t.dtype[c] = "ok" /\ c \notin t.dropped /\
                 \E k \in (IF c = "alter" THEN {"int_as_float"} ELSE IF c = "kind" THEN {"bool_as_int01", "bool_as_float01"} ELSE {"float_as_int"}) :
